@@ -3,6 +3,7 @@ C12 (with-items window) and C13 (retry) theorems.  The window is the pure functi
 `selectItems`, so its properties hold for every item count, concurrency and status vector.
 -/
 import OrqModel.Model.Conductor
+import OrqModel.Proofs.StepRes
 
 namespace Orq
 
@@ -60,7 +61,7 @@ theorem notRun_sublist {α} (actions : List α) (items : List Status) :
     | nil => simp
     | cons i is =>
       simp only [List.zip_cons_cons, List.map_cons]
-      exact (ih is).cons₂ a
+      exact (ih is).cons_cons a
 
 /-- **C12**: items are offered in index order: the offered actions are a sublist of the rendered
     action list (which is in item order) -/
@@ -84,9 +85,14 @@ theorem C12_item_success_unique : ∀ (tk ev : Status) (a p c f i : Bool),
 
 /-- **C12**: a with-items task never reaches a completed status through an item event while
     another item is still active -/
-theorem C12_completed_needs_dormant : ∀ (tk ev : Status) (p c f i : Bool) (s' : Status),
-    tkOnItemEvent tk ev true p c f i = .ok s' → s'.isCompleted = true → tk.isCompleted = true := by
+theorem C12_completed_needs_dormant_k : ∀ (tk ev : Status) (p c f i : Bool),
+    (tkOnItemEvent tk ev true p c f i).all? (fun s' => !s'.isCompleted || tk.isCompleted) = true := by
   decide +kernel
+
+theorem C12_completed_needs_dormant (tk ev : Status) (p c f i : Bool) (s' : Status)
+    (h : tkOnItemEvent tk ev true p c f i = .ok s') (hc : s'.isCompleted = true) : tk.isCompleted = true := by
+  have := StepRes.all?_ok (C12_completed_needs_dormant_k tk ev p c f i) h
+  simpa [hc] using this
 
 /-! ### C13: retry -/
 
@@ -131,9 +137,18 @@ theorem C13_retry_requires_tally_below_count (E : Evaluator) (r : Rec) (ec : Eva
 
 /-- **C13/C18**: a completed task record is reopened only by a retry request: the `succeeded`,
     `failed` and `canceled` rows of the task machine answer no action report -/
-theorem C13_completed_rows : ∀ (tk ev : Status) (s' : Status),
-    (tk = .succeeded ∨ tk = .failed ∨ tk = .canceled) → tkOnActionEvent tk ev = .ok s' → s' = tk := by
+theorem C13_completed_rows_k : ∀ (tk ev : Status),
+    (tk == .succeeded || tk == .failed || tk == .canceled) = true →
+      (tkOnActionEvent tk ev).all? (fun s' => s' == tk) = true := by
   decide +kernel
+
+theorem C13_completed_rows (tk ev s' : Status)
+    (ht : tk = .succeeded ∨ tk = .failed ∨ tk = .canceled) (h : tkOnActionEvent tk ev = .ok s') : s' = tk := by
+  have hb : (tk == .succeeded || tk == .failed || tk == .canceled) = true := by
+    rcases ht with ht | ht | ht <;> subst ht <;> rfl
+  have := StepRes.all?_ok (C13_completed_rows_k tk ev hb) h
+  revert this
+  cases s' <;> cases tk <;> decide
 
 theorem C13_retry_event_reopens : ∀ (tk : Status) (s' : Status),
     (tk = .succeeded ∨ tk = .failed) → tkOnEngineEvent tk .retry_ = .ok s' → s' = .retrying := by
